@@ -56,21 +56,33 @@ fn cases(max_irregular: usize) -> Vec<HelloCase> {
                     for id_first in [false, true] {
                         for dup_caps in [false, true] {
                             for truncated in [false, true] {
+                              // layout: compact; pretty-printed (whitespace between elements); token text padded with
+                              // blanks / newlines (both schema types collapse whitespace); declaration + comments
+                              for layout in 0..4usize {
                                 // keep the matrix focused: irregular shapes are combined with otherwise good hellos
                                 let irregular = usize::from(ns != Ns::Default) + usize::from(dup_caps) + usize::from(truncated) + usize::from(valid_id.is_none()) + usize::from(version.is_none());
                                 if irregular > max_irregular && !(irregular == max_irregular + 1 && ns == Ns::Prefixed) {
                                     continue;
                                 }
+                                if layout > 0 && (irregular > 1 || truncated) {
+                                    continue;
+                                }
+                                let (gap, pad_l, pad_r) = match layout {
+                                    1 => ("\n  ", "", ""),
+                                    2 => ("", "\n    ", " \t\n  "),
+                                    _ => ("", "", ""),
+                                };
                                 let p = if ns == Ns::Prefixed { "nc:" } else { "" };
                                 let mut uris: Vec<&str> = bases.to_vec();
                                 uris.extend_from_slice(extra);
                                 let caps_el: String = format!(
-                                    "<{p}capabilities>{}</{p}capabilities>",
-                                    uris.iter().map(|u| format!("<{p}capability>{u}</{p}capability>")).collect::<String>()
+                                    "{gap}<{p}capabilities>{}{gap}</{p}capabilities>",
+                                    uris.iter().map(|u| format!("{gap}<{p}capability>{pad_l}{u}{pad_r}</{p}capability>")).collect::<String>()
                                 );
-                                let id_el: String = idels.iter().map(|v| format!("<{p}session-id>{v}</{p}session-id>")).collect();
+                                let id_el: String = idels.iter().map(|v| format!("{gap}<{p}session-id>{pad_l}{v}{pad_r}</{p}session-id>")).collect();
                                 let caps_all = if dup_caps { format!("{caps_el}{caps_el}") } else { caps_el.clone() };
-                                let body = if id_first { format!("{id_el}{caps_all}") } else { format!("{caps_all}{id_el}") };
+                                let comment = if layout == 3 { "<!-- generated -->" } else { "" };
+                                let body = if id_first { format!("{comment}{id_el}{comment}{caps_all}{gap}") } else { format!("{comment}{caps_all}{comment}{id_el}{gap}") };
                                 let open = match ns {
                                     Ns::Default => format!("<hello xmlns=\"{BASE_NS}\">"),
                                     Ns::Prefixed => format!("<nc:hello xmlns:nc=\"{BASE_NS}\">"),
@@ -78,7 +90,8 @@ fn cases(max_irregular: usize) -> Vec<HelloCase> {
                                     Ns::Wrong => "<hello xmlns=\"urn:example:not-netconf\">".to_string(),
                                 };
                                 let close = if truncated { String::new() } else { format!("</{p}hello>") };
-                                let text = format!("{open}{body}{close}{MARKER}");
+                                let decl = if layout == 3 { "<?xml version=\"1.0\" encoding=\"UTF-8\"?>" } else { "" };
+                                let text = format!("{decl}{open}{body}{close}{MARKER}");
                                 let good = matches!(ns, Ns::Default | Ns::Prefixed) && !dup_caps && !truncated;
                                 let expect = match (good, valid_id, version) {
                                     (true, Some(id), Some(v)) => Some((*id, v, uris.iter().map(|u| (*u).to_string()).collect())),
@@ -87,8 +100,9 @@ fn cases(max_irregular: usize) -> Vec<HelloCase> {
                                 out.push(HelloCase {
                                     text,
                                     expect,
-                                    desc: format!("{bdesc}; extras {}; {idesc}; ns {ns:?}; {}; {}{}", extra.len(), if id_first { "session-id first" } else { "capabilities first" }, if dup_caps { "duplicate <capabilities>; " } else { "" }, if truncated { "truncated" } else { "complete" }),
+                                    desc: format!("{bdesc}; extras {}; {idesc}; ns {ns:?}; {}; {}{}", extra.len(), if id_first { "session-id first" } else { "capabilities first" }, if dup_caps { "duplicate <capabilities>; " } else { "" }, if truncated { "truncated" } else { "complete" }) + ["", "; layout pretty-printed", "; layout padded token text", "; layout declaration and comments"][layout],
                                 });
+                              }
                             }
                         }
                     }
@@ -116,7 +130,7 @@ pub fn run(report: &mut Report) {
             wire.lock().closed = true;
             let r = drive(Session::verif_new(wire.transport()), 10_000);
             let doc = json!({"hello": case.text, "shape": case.desc, "server_hello_visible_only_after_client_hello": server_hello_after_client});
-            let shape_key: String = case.desc.split("; ").filter(|p| (p.starts_with("session-id") && *p != "session-id first") || p.starts_with("ns ") || p.contains("base") || p.contains("duplicate") || p == &"truncated").collect::<Vec<_>>().join("+");
+            let shape_key: String = case.desc.split("; ").filter(|p| (p.starts_with("session-id") && *p != "session-id first") || p.starts_with("ns ") || p.contains("base") || p.contains("duplicate") || p == &"truncated" || p.starts_with("layout")).collect::<Vec<_>>().join("+");
             // what the client offered is read off the wire, not assumed
             let client_hello = wire.sent_text(0).unwrap_or_default();
             let client_1_0 = client_hello.contains(&format!(">{CAP_BASE_1_0}<"));
@@ -187,5 +201,5 @@ pub fn run(report: &mut Report) {
     report.set("hellos_that_must_establish", cases.iter().filter(|c| c.expect.is_some()).count() as u64);
     report.set("sessions_established", established);
     report.set("exhaustive", true);
-    report.set("rule", "hello grammar: {neither base, 1.0, 1.1, both} x {no extras, known extras, unknown capability} x 11 session-id shapes x {default ns, prefixed, missing, wrong} x element order x duplicate <capabilities> x truncation (irregular shapes combined with otherwise regular hellos), each in both orders of the simultaneous exchange; distinct = distinct hello documents; oracle: established <=> well-formed, valid non-zero 32-bit id, common base; version = highest common; first request framed as the negotiated version requires");
+    report.set("rule", "hello grammar: {neither base, 1.0, 1.1, both} x {no extras, known extras, unknown capability} x 11 session-id shapes x {default ns, prefixed, missing, wrong} x element order x duplicate <capabilities> x truncation x layout {compact, pretty-printed, token text padded with whitespace, XML declaration + comments} (irregular shapes combined with otherwise regular hellos), each in both orders of the simultaneous exchange; distinct = distinct hello documents; oracle: established <=> well-formed, valid non-zero 32-bit id, common base; version = highest common; first request framed as the negotiated version requires");
 }
